@@ -30,10 +30,6 @@ NA = {
  'C08': "'equal once the quadrature is converged', refinement-independence and interpolated = direct evaluation are approximation-error statements "
         "of numerical analysis in floating point, which a contract over exact reals cannot state or decide; the generic Lens wrapper needs the Fortran "
         "Mie solver (not built); AberratedMieLens data-flow is covered through C04/C05/C06 contracts only (DESIGN.md section 7)",
- 'C13': "fixed point, monotone improvement, recovery, repeatability and bound-keeping are properties of the trajectory of iterative floating-point "
-        "optimisers (Levenberg-Marquardt in third_party/nmpfit.py, scipy least_squares) - whole-history numerical behaviour outside what function "
-        "contracts decide; the strategy/serialisation wiring that contracts can reach is claimed under C11 (strategies), C12 (likelihood) and C15 "
-        "(round trips) (DESIGN.md section 7)",
  'C10': "every clause is about values returned by (or a STOP inside) Mishchenko's Fortran T-matrix code, which is not built and cannot be built in this "
         "sandbox; no contract on Python code can express or decide it (DESIGN.md section 7)",
 }
